@@ -52,6 +52,11 @@ BAD = [
     ("C.f.set_formula twice invalid param formula P.parameters = ('1x',)", lambda M: setattr(M.P, "parameters", ("1x",))),
     ("B.add_bases(A) already a base", lambda M: M.B.add_bases(M.A)),
     ("A.new_space('S2', bases=[nonexistent model space])", lambda M: M.A.new_space("S2", bases=[M.other.X])),
+    ("A.f[5] = None over an existing input, without allow_none", lambda M: M.A.f.__setitem__(5, None)),
+    ("D.add_bases(X) where X holds a relative reference to an outside object", lambda M: M.D.add_bases(M.X)),
+    ("new_space('E2', bases=X) with the same out-of-scope relative reference", lambda M: M.m.new_space("E2", bases=M.X)),
+    ("B.f.formula = malformed on a DERIVED cells", lambda M: setattr(M.B.f, "formula", "lambda t: (")),
+    ("A.f.is_cached = 'x'? (valid: truthy) / A.f.allow_none = 3 (valid) -> rename cells to keyword", lambda M: M.A.f.rename("lambda")),
 ]
 BAD = [b for b in BAD if b[1] is not None]
 
@@ -73,6 +78,9 @@ class Mdl:
             C = self.C = m.new_space("C")
             C.new_cells("f", formula="lambda t: 100 + t")
             self.D = m.new_space("D")
+            X = self.X = m.new_space("X")
+            X.new_cells("xf", formula="lambda: 1")
+            X.set_ref("rr", C.f, "relative")          # accepted while X has no sub space
             P = self.P = m.new_space("P", formula="lambda n: None")
             P.new_cells("ph", formula="lambda: n + gr")
             other = self.other = new_model(tag + "o")
@@ -119,6 +127,8 @@ def wellformed(m):
 def rejected(r: int, g: int, inp: int, op: int, pre: bool) -> bool:
     op, pre = pick(op, 0, len(BAD) - 1), pickb(pre)
     vals = dict(r=r, g=g, inp=inp)
+    if "over an existing input" in BAD[op][0]:
+        vals["inp"] = 50       # the error message prints the existing value: a symbolic one would be enumerated without end
     M = Mdl(vals)
     exp = M.expected(vals)
     if pre:
